@@ -42,6 +42,8 @@ type World struct {
 
 	roles                                 *roleInfo
 	escMemo                               map[*ssa.Function]bool
+	msgStructs                            map[string]bool
+	msgFieldStores                        map[string][]*ssa.Store
 	spawnMemo                             map[*ssa.Function]bool
 	statPaths, statPathFns, statAbsStates int
 	anchorSet                             map[*ssa.Function]bool
@@ -423,7 +425,8 @@ func anonFuncsOf(fn *ssa.Function) []*ssa.Function {
 // go or defer only travels through channels the module owns - VTA routes those precisely -
 // and is excluded from the CHA fallback for round-trip call sites.
 func (w *World) escapesToClient(f *ssa.Function) bool {
-	if f.Parent() == nil {
+	bound := f.Parent() == nil && strings.HasPrefix(f.Synthetic, "bound method wrapper")
+	if f.Parent() == nil && !bound {
 		return true // named functions and methods: reachable through interfaces / exported names
 	}
 	if w.escMemo == nil {
@@ -488,6 +491,25 @@ func (w *World) escapesToClient(f *ssa.Function) bool {
 				esc = true
 			}
 		}
+	}
+	if bound {
+		// a method value x.m: judged by the uses of the closures made from it
+		n := 0
+		for _, g := range w.ModFns {
+			for _, b := range g.Blocks {
+				for _, in := range b.Instrs {
+					if mc, ok := in.(*ssa.MakeClosure); ok && mc.Fn == f {
+						n++
+						visit(mc)
+					}
+				}
+			}
+		}
+		if n == 0 {
+			esc = true
+		}
+		w.escMemo[f] = esc
+		return esc
 	}
 	for _, b := range f.Parent().Blocks {
 		for _, in := range b.Instrs {
